@@ -508,7 +508,7 @@ def _tree_leaves(o, out):
         for i in o.values():
             _tree_leaves(i, out)
     elif isinstance(o, (S.Sym, bool, int, float, Fraction)):
-        out.append(o)
+        out.append(S.norm(o) if isinstance(o, float) and math.isfinite(o) else o)
     return out
 
 
